@@ -178,6 +178,16 @@ func c15r1(w *World, rr *RuleRun) {
 				}
 			}
 			rr.Oblige("krpc."+name, "MarshalBinary asserts/produces exactly ElemSize bytes per element", w.P.Pos(mb.Pos()), viaHelper || okRaw, fmt.Sprintf("via marshalBinarySlice: %v; raw whole-array append: %v", viaHelper, okRaw))
+			if needIP && viaHelper {
+				// every element is normalised: no call of the helper receives the list as it is (a
+				// shortcut for lists that "look normalised" panics on the first 16-byte IPv4 entry)
+				for _, site := range w.CallsIn(mb, mbs, true) {
+					a0 := callInstrCommon(site).Args[0]
+					at := w.TS.Of(a0)
+					raw := termEq(at, w.TS.Of(mb.Params[0]))
+					rr.At(w, site, "the width-asserting helper is given the normalised elements, never the list as it is", !raw, "argument "+trunc(at.String(), 100))
+				}
+			}
 		} else {
 			rr.Oblige("krpc."+name, "compact type has MarshalBinary", "-", false, "")
 		}
